@@ -25,10 +25,16 @@ Theorem C10_operator_when_unbound : forall keys inp pos parts cps endpos,
 Proof. exact operator_when_unbound. Qed.
 Print Assumptions C10_operator_when_unbound.
 
-Theorem C10_normal_form_refuted :
-  flatten_parts parts_a_plus_minus_b <> name_new parts_a_plus_minus_b /\ flatten_parts parts_a_plus <> name_new parts_a_plus.
+(* the text under which the lexer looks a prefix up is the text under which names are stored (one normal form) *)
+Theorem C10_normal_form : forall ps, flatten_parts ps = name_new ps.
+Proof. exact normal_form. Qed.
+Print Assumptions C10_normal_form.
+
+(* the original flatten_name_parts did not agree with Name::new *)
+Theorem C10_normal_form_orig_refuted :
+  flatten_parts_orig parts_a_plus_minus_b <> name_new parts_a_plus_minus_b /\ flatten_parts_orig parts_a_plus <> name_new parts_a_plus.
 Proof. exact normal_form_refuted_witness. Qed.
-Print Assumptions C10_normal_form_refuted.
+Print Assumptions C10_normal_form_orig_refuted.
 
 Example C10_operator_when_unbound_nonvacuous :
   lex_all [key_a; key_b] inp_a_minus_b = Some [KName key_a; KSym 45; KName key_b] /\
